@@ -2,9 +2,10 @@
 # refcheck.sh <ref-dir>: apply a behaviour-preserving refactoring to /repo, run every quick check (all must stay silent), undo.
 S="$1"
 export GOFLAGS=-mod=mod GOPROXY=off GOSUMDB=off GOTOOLCHAIN=local
+mkdir -p /tmp/seedverif && cp /verif/known-findings.json /tmp/seedverif/
 git -C /repo apply $S/patch.diff || { echo "PATCH DOES NOT APPLY"; exit 1; }
 python3 -c "import json;m=json.load(open('$S/meta.json'));print('==',m.get('area','')[:60],'::',m['summary'][:200])"
-for id in C01 C02 C03 C04 C05 C06 C07 C08 C09 C10 C12 C13 C14 C16 C17 C18 C19; do
+for id in C01 C02 C03 C04 C05 C06 C07 C08 C09 C10 C11 C12 C13 C14 C16 C17 C18 C19 C20; do
   out=$(/verif/bin/owcheck -repo /repo -verif /tmp/seedverif -prop $id 2>&1); rc=$?
   if [ $rc -ne 0 ]; then echo "   CHECK $id ALARMS:"; echo "$out" | grep -v '^VIOLATION\|^KNOWN' | grep -v ' quick: ' | head -5 | cut -c1-330; fi
 done
